@@ -569,7 +569,7 @@ func (w *Worker) heavy(op Op, a, b *Term) *Term {
 		}
 	}
 	var sig strings.Builder
-	fmt.Fprintf(&sig, "%d:%d:", a.w, keep.id)
+	fmt.Fprintf(&sig, "%d:", a.w)
 	for _, v := range vals {
 		fmt.Fprintf(&sig, "%x,", v)
 	}
@@ -764,10 +764,11 @@ func (w *Worker) resetPath(it workItem) {
 	w.encoded = nil
 	w.usedSolver = false
 	w.mapOrderNondet = false
-	w.tables = map[*value]*Table{}
+	if w.tables == nil || len(w.tableBySig) > 50000 {
+		w.tables = map[*value]*Table{}
+		w.tableBySig = map[string]*Table{}
+	}
 	w.heavyCache = map[tkey]*Term{}
-	w.tableBySig = map[string]*Table{}
-	w.nextTable = 0
 	w.nvar = 0
 	w.tb.Reset()
 	w.sol.NewPath()
